@@ -151,6 +151,13 @@ def _impl_api(case):
         tr = traj.transitions_between_sites(sites, 'Li', site_radius=radius, site_inner_fraction=0.5)
     except Exception as e:
         return {'rows': [], 'error': type(e).__name__, 'msg': str(e)[:120], 'prev': None, 'next': None, 'inputs_changed': []}
+    if case.get('dict_radius'):
+        # per-state radial distributions are computed first for half of the cases (they read the states and the previous / next views):
+        # what the object says about states and events afterwards is what it said before
+        try:
+            tr.radial_distribution(floating_specie='Li', max_dist=2.0, resolution=0.5)
+        except Exception:
+            pass
     states_ok = bool(np.array_equal(tr.states, o) and np.array_equal(tr.inner_states, i))
     rows = [[int(v) for v in r] for r in tr.events.to_numpy()]
     return {'rows': rows, 'error': None, 'prev': tr.states_prev().T.tolist(), 'next': tr.states_next().T.tolist(), 'inputs_changed': [], 'states_ok': states_ok}
